@@ -198,17 +198,51 @@ func (s *state) getBlock(name string) *parse.BlockNode {
 	return nil
 }
 
-func (s *state) getParentBlock(name string) *parse.BlockNode {
-	rootFound := false
+// Method getParentBlock returns the definition that follows the given block
+// in the chain of block scopes, i.e. the version it overrides.
+func (s *state) getParentBlock(cur *parse.BlockNode) *parse.BlockNode {
+	curFound := false
 	for _, blocks := range s.blocks {
-		if block, ok := blocks[name]; ok {
-			if rootFound {
+		if block, ok := blocks[cur.Name]; ok {
+			if curFound {
 				return block
 			}
-			rootFound = true
+			if block == cur {
+				curFound = true
+			}
 		}
 	}
 	return nil
+}
+
+// Method walkBlock renders the given block definition, making it the current
+// block and its origin the current template name for the duration.
+func (s *state) walkBlock(block *parse.BlockNode) error {
+	if block.Origin != "" {
+		defer func(name string) {
+			s.name = name
+		}(s.name)
+		s.name = block.Origin
+	}
+	prev := s.current
+	s.current = block
+	defer func() {
+		s.current = prev
+	}()
+	return s.walk(block.Body)
+}
+
+// Method captureBlock renders the given block definition into a string.
+func (s *state) captureBlock(block *parse.BlockNode) (Value, error) {
+	defer func(out io.Writer) {
+		s.out = out
+	}(s.out)
+	buf := &bytes.Buffer{}
+	s.out = buf
+	if err := s.walkBlock(block); err != nil {
+		return nil, err
+	}
+	return buf.String(), nil
 }
 
 // Method walk is the main entry-point into template execution.
@@ -260,18 +294,7 @@ func (s *state) walk(node parse.Node) error {
 	case *parse.BlockNode:
 		name := node.Name
 		if block := s.getBlock(name); block != nil {
-			if block.Origin != "" {
-				defer func(name string) {
-					s.name = name
-				}(s.name)
-				s.name = block.Origin
-			}
-			prev := s.current
-			s.current = block
-			defer func() {
-				s.current = prev
-			}()
-			return s.walk(block.Body)
+			return s.walkBlock(block)
 		}
 		// TODO: It seems this should never occur.
 		return errors.New("Unable to locate block " + name)
@@ -794,15 +817,8 @@ func (s *state) evalFunction(exp *parse.FuncExpr) (Value, error) {
 			return nil, errors.New("not inside a block!")
 		}
 		name := s.current.Name
-		if blk := s.getParentBlock(name); blk != nil {
-			pout := s.out
-			buf := &bytes.Buffer{}
-			s.out = buf
-			if err := s.walk(blk.Body); err != nil {
-				return nil, err
-			}
-			s.out = pout
-			return buf.String(), nil
+		if blk := s.getParentBlock(s.current); blk != nil {
+			return s.captureBlock(blk)
 		}
 		return nil, errors.New("Unable to locate block \"" + name + "\"")
 	case "block":
@@ -816,15 +832,7 @@ func (s *state) evalFunction(exp *parse.FuncExpr) (Value, error) {
 		}
 		name := CoerceString(val)
 		if blk := s.getBlock(name); blk != nil {
-			pout := s.out
-			buf := &bytes.Buffer{}
-			s.out = buf
-			err = s.walk(blk.Body)
-			if err != nil {
-				return nil, err
-			}
-			s.out = pout
-			return buf.String(), nil
+			return s.captureBlock(blk)
 		}
 		return nil, errors.New("Unable to locate block \"" + name + "\"")
 	}
